@@ -115,13 +115,35 @@ def fn_order(fns):
 
 
 def program(p):
+    """functions used by the global initialisers, then the globals, then the other functions
+    (mimium resolves top-level names in definition order)"""
     out = []
-    for g in p.get("globals", []):
-        out.append(f"let {g['x']} = {expr(g['a'])}")
     fns = p["fns"]
     order = p.get("order") or fn_order(fns)
-    for n in order:
+    gl = p.get("globals", [])
+    need = set()
+    for g in gl:
+        _refs(g["a"], need)
+    todo = [n for n in need if n in fns]
+    first = set()
+    while todo:
+        n = todo.pop()
+        if n in first:
+            continue
+        first.add(n)
+        acc = set()
+        _refs(fns[n]["b"], acc)
+        todo += [d for d in acc if d in fns]
+
+    def emit(n):
         f = fns[n]
-        ps = ", ".join(f["ps"])
-        out.append(f"fn {n}({ps}){block(f['b'], 0)}")
+        out.append(f"fn {n}({', '.join(f['ps'])}){block(f['b'], 0)}")
+    for n in order:
+        if n in first:
+            emit(n)
+    for g in gl:
+        out.append(f"let {g['x']} = {expr(g['a'])}")
+    for n in order:
+        if n not in first:
+            emit(n)
     return "\n".join(out) + "\n"
